@@ -18,7 +18,7 @@ def collect_ws(prop, tier):
         sd = vlib.spec_dir(sc)
         binp = vlib.build_harness(sc, "wsconn")
         with open(os.path.join(sd, "WsGen.cfg"), "w") as f:
-            f.write("SPECIFICATION Spec\nCONSTANTS MaxWriters = 3\n MaxK = 6\n Delays = {0, 40, 200%s}\nCHECK_DEADLOCK FALSE\n"
+            f.write("SPECIFICATION Spec\nCONSTANTS MaxWriters = 3\n MaxK = 6\n Delays = {0, 40, 200%s}\n Long = FALSE\nCHECK_DEADLOCK FALSE\n"
                     % ("" if q else ", 20, 100, 1000"))
         g = vlib.tlc(sd, "WsGen", workers=1, timeout=600)
         if g["error"]:
